@@ -218,6 +218,9 @@ func (g *gen) operatorCase(id string) *EvalCase {
 	if r.chance(1, 20) {
 		op = pick(r, []string{"", "unknown", "In"})
 	}
+	if len(g.forceOps) > 0 {
+		op = pick(r, g.forceOps)
+	}
 	// value pairs biased toward the operator's own domain so that it is frequently satisfied
 	var pool []JV
 	switch op {
@@ -451,6 +454,36 @@ func genStream(name string, r *rng, id string) *EvalCase {
 	case "bucketsplit":
 		g.p = profiles["rollouts"]
 		return g.bucketSplitCase(id)
+	case "dateops":
+		g.p = profiles["wellformed"]
+		g.forceOps = []string{"before", "after"}
+		c := g.operatorCase(id)
+		// random well-formed timestamps on both sides, in both representations
+		cl := &c.Flag.Rules[0].Clauses[0]
+		tv := func() JV {
+			if r.bool() {
+				return jStr(randTimestamp(r))
+			}
+			return jNum(math.Floor((float64(r.next()%(1<<53))/float64(uint64(1)<<53)*2 - 1) * 3e14))
+		}
+		if r.chance(2, 3) {
+			cl.Vals = []JV{tv()}
+			set := func(s *WSCtx) {
+				for i := range s.Attrs {
+					if s.Attrs[i].V.K != 'o' {
+						s.Attrs[i].V = tv()
+					}
+				}
+			}
+			if c.Ctx.T == "single" {
+				set(c.Ctx.C)
+			} else {
+				for i := range c.Ctx.Cs {
+					set(&c.Ctx.Cs[i])
+				}
+			}
+		}
+		return c
 	case "segprobe":
 		g.p = profiles["segments"]
 		g.p.MaxFlags = 0
